@@ -135,6 +135,16 @@ def assemble(prog):
 
 
 _PADS = [0, 0, 2, 4, 8, 12, 20, 100, 124, 126, 128, 130, 252, 254, 256, 258, 1000, 2040, 2044, 2048, 2052, 4088, 4092, 4096, 4100]
+# pad menus by scale: distances stay below the next range edge so that most links succeed
+PAD_SCALES = {
+    "small": [0, 0, 2, 4, 8, 12, 20, 40, 60],
+    "byte": [0, 4, 8, 60, 100, 110, 116, 120, 122, 124, 126, 128, 130, 132],
+    "half": [0, 4, 60, 200, 236, 244, 248, 250, 252, 254, 256, 258, 260],
+    "kilo": [0, 4, 60, 500, 900, 1000, 1010, 1016, 1020, 1024, 1028, 2000, 2030, 2040, 2044, 2046, 2048, 2050, 2052],
+    "page": [0, 4, 60, 2048, 4000, 4080, 4088, 4090, 4092, 4094, 4096, 4098, 4100],
+    "far": [0, 4, 60, 4096, 0x3FFF0, 0x40000, 0x7FFF0, 0xFFFE0, 0xFFFF0, 0xFFFF8, 0xFFFFC, 0x100000, 0x100008],
+    "huge": [0, 4, 60, 0x3FFFF0, 0x400000, 0x400010],
+}
 
 
 @st.composite
@@ -159,6 +169,7 @@ def program(draw, target, max_objects=2, max_sections=3, max_items=10, words=Tru
     pads = list(_PADS if pads is None else pads)
     if far:
         pads += [0x7FFF0, 0xFFFF0, 0x100000 - 8, 0x100000, 0x100008]
+    big_budget = [2]  # at most two large pads per program keep the sizes bounded
     for oi, od in enumerate(objs):
         for s in od["sections"]:
             own = [l for l in labels if l[1] == oi and l[2] == s["name"]]
@@ -190,9 +201,9 @@ def program(draw, target, max_objects=2, max_sections=3, max_items=10, words=Tru
                 elif c < 8:
                     n = draw(st.sampled_from(pads))
                     if n > 0x10000:
-                        if far_used:
+                        if big_budget[0] <= 0:
                             n = 4
-                        far_used = True
+                        big_budget[0] -= 1
                     n = n // gran * gran
                     if target == "xtensa":
                         n = n // 3 * 3 if draw(st.booleans()) else n
